@@ -1035,6 +1035,12 @@ func (c *UConn) handleRenegotiation() error {
 		// crypto/tls loads the session again for every handshake
 		c.sessionController.loadSessionTracker = NeverCalled
 	}
+	if c.sessionController.state == PskExtAllSet {
+		// the handshake that just ended took the TLS 1.3 secrets out of
+		// HandshakeState (the server chose TLS 1.2): let the extension that
+		// still holds them set them again instead of asserting they are there
+		c.sessionController.state = PskExtInitialized
+	}
 	if err = c.BuildHandshakeState(); err != nil {
 		return err
 	}
